@@ -2,7 +2,7 @@
 Graph part: the table of conversions chained by MFront is observed on the real translation unit and judged by TLC
 (FiniteStrainTableJudge, which also checks the reachability theorems of the graph).
 Functional part: GEN (TLC, FiniteStrainGen) -> RUN (harness/finitestrain.cxx: tfel::material::convert<...> along every path of
-at most 3 (thorough: 4) conversions, stress conversions) -> JUDGE (TLC, FiniteStrainJudge)."""
+at most 3 (thorough: up to 4) conversions, stress conversions) -> JUDGE (TLC, FiniteStrainJudge)."""
 import os
 
 from vflib import core
@@ -13,8 +13,8 @@ LIBS = ["TFELMaterial", "TFELMath", "TFELUtilities", "TFELException"]
 RULE = ("tangent: 3 hyperelastic laws S = S0 + Dp:(C - I) (Saint Venant-Kirchhoff, anisotropic with residual stress, residual "
         "stress + 2 Id) x deformation gradients enumerated by TLC (identity, shears, products of shears, rotations of 90/120 "
         "degrees times stretches, det F in {1, 2, 3, 6}) x F0 in {Id, unimodular, det 2} x N = 1, 2, 3; in each case every path of "
-        "at most 3 (thorough: 4) conversions of the graph of the 36 converters between the 12 flags with a defined meaning is "
-        "followed from the exact operator of its first flag (604 paths, thorough 2 560); the 4 converters from DT_DELOG are "
+        "at most 3 conversions (604 paths; thorough: at most 4, 2 169 paths, for the anisotropic law with F0 = Id) of the graph of the "
+        "36 converters between the 12 flags with a defined meaning is followed from the exact operator of its first flag; the 4 converters from DT_DELOG are "
         "exercised for composition only; stress: 7+2 basis/generic integer stresses x the same deformation gradients x 2 "
         "stretches; a case is non-trivial unless F1 = Id")
 ASSUMPTIONS = [
@@ -62,13 +62,15 @@ def run(ctx):
                 if not any(c["n"] == n and c["J"] > 1 for c in t) or not any(c["n"] == n for c in s):
                     raise Broken("GEN produced no tangent case with det F > 1 or no stress case for N=%d" % n)
         d = {"tangent_cases": len(t), "stress_cases": len(s),
-             "paths_per_tangent_case": len(t[0]["paths"]) if t else 0,
+             "paths_per_tangent_case": sorted({len(c["paths"]) for c in t}),
              "conversions_executed": sum(sum(len(p) - 1 for p in c["paths"]) for c in t)}
         d.update(graph)
         return d
 
     def sig(f, b):
         o = b.get("obs") or {}
+        if f.startswith("inexact:"):
+            f = "inexact"          # a consequence of a wrong value (irrational factor); the path is in the record
         return "%s:N=%s" % (f, o.get("n", "?"))
 
     return lattice_check(ctx, gen="material/FiniteStrainGen", judge="material/FiniteStrainJudge", harness="finitestrain.cxx",
